@@ -294,7 +294,17 @@ def _pat_text(pats):
     return "".join(re.escape(p) if k == "lit" else f"(?:{p})" for k, p in pats)
 
 
+def _sb_int_padded(ex, st, args, kwargs):
+    """int_padded(...): as strip_padded, for the whitespace int() skips (C isspace on ASCII, Unicode spaces
+    beyond): conclusion py_int_strip(s) == tok1 + tok2 + ..."""
+    yield from _padded(ex, st, args, "int")
+
+
 def _sb_strip_padded(ex, st, args, kwargs):
+    yield from _padded(ex, st, args, "str")
+
+
+def _padded(ex, st, args, flavor):
     """strip_padded(s, w1, ws_pattern, w2, tok1, pat1, tok2, pat2, ...)
 
     s == w1 + tok1 + tok2 + ... + w2, w1/w2 in L(ws_pattern) (only whitespace), tok_i in L(pat_i) (a
@@ -310,16 +320,18 @@ def _sb_strip_padded(ex, st, args, kwargs):
     # the padding pattern may only produce python whitespace
     from .regex import only_chars
 
-    if not only_chars(wspat, lambda c: c.isspace()):
-        raise Unsupported(f"strip_padded: {wspat!r} is not a whitespace-only pattern")
+    ws_ranges = bm.PY_WS if flavor == "str" else bm.INT_WS
+    if not only_chars(wspat, lambda c: any(lo <= ord(c) <= hi for lo, hi in ws_ranges)):
+        raise Unsupported(f"strip_padded: {wspat!r} is not a whitespace-only pattern for flavor {flavor}")
     vals, facts, pats = _tokens(list(args[4:]))
-    if not ends_exclude(_pat_text(pats), bm.PY_WS):
+    if not ends_exclude(_pat_text(pats), ws_ranges):
         raise Unsupported(f"strip_padded: tokens {_pat_text(pats)!r} may be empty or start/end with whitespace")
     whole = bm.str_concat([w1] + vals + [w2])
     core = bm.str_concat(vals)
     ws = to_z3(wspat)
     ante = [bm.sstr(s) == bm.sstr(whole), z3.InRe(bm.sstr(w1), ws), z3.InRe(bm.sstr(w2), ws)] + facts
-    yield st, SV("bool", z3.Implies(z3.And(*ante), bm.PY_STRIP(bm.sstr(s)) == bm.sstr(core)))
+    fn = bm.PY_STRIP if flavor == "str" else bm.PY_INT_STRIP
+    yield st, SV("bool", z3.Implies(z3.And(*ante), fn(bm.sstr(s)) == bm.sstr(core)))
 
 
 def _sb_index_at(ex, st, args, kwargs):
@@ -447,7 +459,12 @@ def _sb_py_strip(ex, st, args, kwargs):
             yield st1, bm.model_strip(ex, st1, w)
 
 
-SPEC_BUILTINS = {"py_repr": _sb_py_repr, "loops_exhausted": _sb_loops_exhausted, "call_kwarg": _sb_call_kwarg, "some": _sb_some, "index_at": _sb_index_at, "strip_blank": _sb_strip_blank, "pos_of": _sb_pos_of, "call_arg": _sb_call_arg, "unmodified": _sb_unmodified, "uf": _sb_uf, "called": _sb_called, "py_isalpha": _sb_py_isalpha, "py_isdigit": _sb_py_isdigit, "int_of_signed": _sb_int_of_signed, "strip_padded": _sb_strip_padded, "strip_unique": _sb_strip_unique, "py_strip": _sb_py_strip, "pad": _sb_pad, "matches": _sb_matches, "nat": _sb_nat, "key_at": _sb_key_at, "val_at": _sb_val_at,
+def _sb_py_int_strip(ex, st, args, kwargs):
+    (s,) = args
+    yield st, (SV("str", bm.strip_term(bm.sstr(s), "int")) if is_sym(s) else s.strip(" \t\n\x0b\x0c\r"))
+
+
+SPEC_BUILTINS = {"int_padded": _sb_int_padded, "py_int_strip": _sb_py_int_strip, "py_repr": _sb_py_repr, "loops_exhausted": _sb_loops_exhausted, "call_kwarg": _sb_call_kwarg, "some": _sb_some, "index_at": _sb_index_at, "strip_blank": _sb_strip_blank, "pos_of": _sb_pos_of, "call_arg": _sb_call_arg, "unmodified": _sb_unmodified, "uf": _sb_uf, "called": _sb_called, "py_isalpha": _sb_py_isalpha, "py_isdigit": _sb_py_isdigit, "int_of_signed": _sb_int_of_signed, "strip_padded": _sb_strip_padded, "strip_unique": _sb_strip_unique, "py_strip": _sb_py_strip, "pad": _sb_pad, "matches": _sb_matches, "nat": _sb_nat, "key_at": _sb_key_at, "val_at": _sb_val_at,
                  "same_dict": _sb_same_dict}
 
 
